@@ -50,7 +50,8 @@ def gen_op(tape, prop, npairs, lend, bias):
         w[2] = 1 if prop in ("C07", "C10") else 0     # borrow requests without lending must fail (C10)
         w[3] = 0
     w.append(1 if prop in ("C04", "C08", "C01") else 0)      # "reprec": a symbol's precision is made finer mid-run
-    kind = tape.weighted(list(zip(w, ["order", "cancel", "loan", "repay", "invalid", "edge", "reprec"])))
+    w.append(1 if (prop == "C10" and lend) else 0)           # "recond": a symbol's margin requirement is raised mid-run
+    kind = tape.weighted(list(zip(w, ["order", "cancel", "loan", "repay", "invalid", "edge", "reprec", "recond"])))
     op = dict(kind=kind, yields=tape.weighted([(5, 0), (2, 1), (1, 2), (1, 3)]),
               sleep=tape.weighted([(8, 0), (1, 1), (1, 2)]))
     if kind in ("order", "edge", "invalid"):
@@ -78,6 +79,8 @@ def gen_op(tape, prop, npairs, lend, bias):
         op.update(which=tape.weighted([(6, "open"), (2, "closed"), (1, "unknown")]), k=tape.draw(50))
     elif kind == "reprec":
         op.update(sym=tape.draw(5), by=1 + tape.draw(2))
+    elif kind == "recond":
+        op.update(sym=tape.draw(5), add=tape.choice(["0.5", "0.25", "1", "0.1"]))
     return op
 
 
@@ -211,9 +214,11 @@ def build(tape, prop, tier):
             lo, hi = lv[0], lv[3]
             o = tape.choice([lv[1], lv[2], lo, hi])
             c = tape.choice([lv[2], lv[1], hi, lo])
-            vol = tape.weighted([(4, "mid"), (2, "zero"), (2, "small"), (2, "large"), (2, "offgrid")])
+            vol = tape.weighted([(4, "mid"), (2, "zero"), (2, "small"), (2, "large"), (2, "offgrid"), (2, "fine")])
+            # "fine": nine decimals, so that a share of it has more decimals than any base precision
             v = {"mid": D(tape.int(1, 2000)) / 10, "zero": D(0), "small": D(tape.int(1, 40)) / 10,
-                 "large": D(tape.int(1000, 200000)), "offgrid": D(tape.int(1, 99999)) / 1000}[vol]
+                 "large": D(tape.int(1000, 200000)), "offgrid": D(tape.int(1, 99999)) / 1000,
+                 "fine": D(tape.int(1, 10 ** 10)) / 10 ** 9}[vol]
             rows.append(dict(k=k, o=o, h=hi, l=lo, c=c, v=str(v)))
             px = c
         bars.append(rows)
@@ -266,6 +271,8 @@ def build(tape, prop, tier):
     s["slow"] = None
     if not s["motif"] and ntot >= 2 and tape.chance(0.15):
         s["slow"] = dict(pair=1 + tape.draw(ntot - 1), span=tape.choice([2, 3, 6]))
+    # bar times that are not whole seconds (each pair at its own fraction of a second): elapsed times get a sub-second part
+    s["subsec"] = tape.chance(0.2)
     # fault: the user-supplied fee strategy raises once, the n-th time the exchange consults it while processing a bar
     s["flaky_fee"] = (1 + tape.draw(8)) if (not s["motif"] and tape.chance(0.08)) else s.pop("flaky_fee_motif", 0)
     return s
@@ -336,7 +343,9 @@ def apply_motif(s, tape):
         s["oe_every"] = 0
         s["sig_every"] = 0
         loan = dict(kind="loan", yields=0, sleep=0, sym=0, amt_kind="abs", amt=0, abs="100.00", symname=QUOTE)
-        s["scripts"] = {"bar:0:0": [dict(loan)], "bar:0:2": [dict(loan)],
+        # (or the older loan is slightly smaller but, with its interest, the bigger debt: "largest" means principal)
+        first = dict(loan, abs=tape.choice(["100.00", "99.00", "100.00", "99.50"]))
+        s["scripts"] = {"bar:0:0": [first], "bar:0:2": [dict(loan)],
                         "bar:0:3": [order_op(otype="market", side="buy", amt_kind="abs", abs="1.90")],
                         "bar:0:5": [order_op(otype="market", side="sell", amt_kind="abs",
                                              abs=str(D("1.00") + D(tape.draw(9)) / 100), ar=True)]}
